@@ -264,6 +264,10 @@ pub struct MapSpec {
     pub kt: Kt,
     pub params: Params,
     pub keys: Vec<Key>,
+    /// not opened at the start: first opened when first used, through the most recently cloned
+    /// database handle (C11: lookups through different database handles must alias)
+    #[serde(default)]
+    pub late: bool,
 }
 
 /// what the interpreter observes besides API results.
